@@ -29,6 +29,11 @@ def main(seed, n):
             m = bench.mapping(width, rng)
             k = rng.randint(width - 6, width) if width > 8 else rng.randint(1, 6)
             cons = [(rng.choice(B.CMPRS), r) for r in sorted(rng.sample(range(width), k))]
+            if i % 3 == 1 and cons:
+                # an exact duplicate, and one version under two comparators (what a de-duplication keyed by the version
+                # alone, or an unstable order of ties, gets wrong in a seed-dependent way)
+                j = rng.randrange(len(cons))
+                cons = cons + [cons[j], (rng.choice([c for c in B.CMPRS if c != cons[j][0]]), cons[j][1])]
             objs = B.real_cons(bench, cons, m)
             try:
                 simp = VersionConstraint.simplify(list(objs))
